@@ -183,8 +183,16 @@ IsCrashLine(o) == o.crashed
 RECURSIVE LastCrash(_)
 LastCrash(k) == IF k < 1 \/ Trace[k].w # Trace[i].w THEN 0
                 ELSE IF IsCrashLine(Trace[k]) THEN k ELSE LastCrash(k - 1)
+(* no pool reconfiguration by the user since line c (edits of OTHER Services do not touch the       *)
+(* entitlement of a Service to its recorded addresses; its own spec is compared explicitly)            *)
 RECURSIVE QuietSince(_, _)
-QuietSince(c, k) == IF k <= c THEN TRUE ELSE ~IsUserOp(Trace[k]) /\ QuietSince(c, k - 1)
+QuietSince(c, k) == IF k <= c THEN TRUE ELSE Trace[k].op # "UserLayout" /\ QuietSince(c, k - 1)
+
+(* service u has existed with spec sp at every observation from line c to line k *)
+RECURSIVE SameSince(_, _, _, _)
+SameSince(c, k, u, sp) ==
+  IF k <= c THEN TRUE
+  ELSE LET a == Api(Trace[k]) IN a[u] # NULL /\ a[u].spec = sp /\ SameSince(c, k - 1, u, sp)
 
 RecordedOK(R, L, s) ==   \* the recorded addresses of s were admissible and consistent with the other records
   R[s] # NULL /\ AdmissibleIn(L, s, R[s].spec, R[s].status) /\ ShareConsistent(R, s)
@@ -193,7 +201,11 @@ C06_KeepAfterRestart(o) ==
   LET c == LastCrash(i) IN
   (o.q /\ c > 0 /\ QuietSince(c, i) /\ Trace[c].cfgApi = o.cfgApi) =>
      LET R == Api(Trace[c])  b == Api(o) IN
-     \A s \in Exists(R) : RecordedOK(R, o.cfgApi, s) => (b[s] # NULL /\ SetEq(b[s].status, R[s].status))
+     \A s \in Exists(R) :
+        (RecordedOK(R, o.cfgApi, s) /\ SameSince(c, i, s, R[s].spec)
+           /\ \A t \in Exists(R) \ {s} :      \* sharers at the crash have not been edited since
+                 (Range(R[t].status) \cap Range(R[s].status) # {}) => SameSince(c, i, t, R[t].spec))
+        => SetEq(b[s].status, R[s].status)
 
 C06_NoTheft(o) ==
   LET c == LastCrash(i) IN
@@ -201,7 +213,8 @@ C06_NoTheft(o) ==
      LET R == Api(Trace[c])  b == Api(o) IN
      \A t \in LBs(b) : (R[t] = NULL \/ R[t].status = <<>>) =>
         \A u \in Exists(R) \ {t} :
-           (RecordedOK(R, o.cfgApi, u) /\ b[u] # NULL /\ Range(b[t].status) \cap Range(R[u].status) # {})
+           (RecordedOK(R, o.cfgApi, u) /\ SameSince(c, i, u, R[u].spec)
+              /\ Range(b[t].status) \cap Range(R[u].status) # {})
               => StatusShareOK(b[t], b[u])
 
 C06_Converges(o) == o.op = "Drained" => o.q
